@@ -8,7 +8,10 @@
 # Usage: mutation_sweep.sh <pkgdir: pkg/yang|pkg/indent> [from-id] [to-id] > log
 export GOFLAGS=-mod=mod GOPROXY=off GOSUMDB=off GOTOOLCHAIN=local; unset GOWORK
 PKG=${1:-pkg/yang}; FROM=${2:-0}; TO=${3:-999999}
-N=$(/verif/bin/mutgen -dir /repo/$PKG -list | wc -l)
+# FAMILY=2 uses the type-aware generator (checker/mutgen2: swapped sibling fields / arguments / statements, deleted switch
+# cases, error results replaced by nil); ids of the two families are unrelated.
+FAMILY=${FAMILY:-1}
+if [ "$FAMILY" = 2 ]; then N=$(/verif/bin/mutgen2 -repo /repo -pkg ./$PKG -list | wc -l); else N=$(/verif/bin/mutgen -dir /repo/$PKG -list | wc -l); fi
 [ $TO -ge $N ] && TO=$((N-1))
 run_range() {
   w=$1; PKG=$2; FROM=$3; TO=$4; STEP=$5
@@ -16,7 +19,8 @@ run_range() {
   flock /tmp/gy-st.lock /verif/tools/scratch.sh "$D" >/dev/null 2>&1 || exit 1
   for ((i=FROM+w; i<=TO; i+=STEP)); do
     git -C "$D" checkout -q -- . 2>/dev/null
-    desc=$(/verif/bin/mutgen -dir "$D/$PKG" -apply $i 2>/dev/null) || { echo "ERROR $PKG $i"; continue; }
+    if [ "$FAMILY" = 2 ]; then desc=$(/verif/bin/mutgen2 -repo "$D" -pkg ./$PKG -apply $i 2>/dev/null) || { echo "ERROR $PKG $i"; continue; }
+    else desc=$(/verif/bin/mutgen -dir "$D/$PKG" -apply $i 2>/dev/null) || { echo "ERROR $PKG $i"; continue; }; fi
     if ! (cd "$D" && go build ./... ) >/dev/null 2>&1; then echo "NOBUILD $PKG $i $desc"; continue; fi
     if ! (cd "$D" && timeout 120 go test -vet=off -count=1 ./... ) >/dev/null 2>&1; then
       rc=$?; if [ $rc = 124 ]; then echo "TIMEOUT $PKG $i $desc"; else echo "KILLED $PKG $i $desc"; fi; continue; fi
@@ -27,6 +31,6 @@ run_range() {
   git -C "$D" checkout -q -- . 2>/dev/null
   flock /tmp/gy-st.lock git -C /repo worktree remove --force "$D" >/dev/null 2>&1
 }
-export -f run_range
+export -f run_range; export FAMILY
 W=12
 seq 0 $((W-1)) | xargs -P $W -I{} bash -c "run_range {} $PKG $FROM $TO $W"
